@@ -34,6 +34,10 @@ func storeMachine(t *rapid.T, prop string, kind gen.StoreKind) {
 	}
 	base := gen.ClusterBase(span+2).Draw(t, "base")
 	g := &opGen{base: base, span: span, bud: bud, kinds: storeOpKinds}
+	if kind.Name == "paginated" {
+		// more bursts of unit adds: they are what fills the buffer, triggers compaction and creates pages
+		g.kinds = append(append([]string{}, storeOpKinds...), "burst", "burst", "burst", "burst")
+	}
 	u := newSUT(kind, bud, cl)
 	cl.logf("%s kind=%s base=%d span=%d", prop, kind, base, span)
 	cl.label("kind:" + kind.Name)
